@@ -34,6 +34,8 @@ let handle toks =
              (if sts = [] then "-" else String.concat "," (List.map zs sts))
              (if ps.ps_has_null_count then zs ps.ps_null_count else "-1")
              (show_opt ps.ps_min_value) (show_opt ps.ps_max_value))
+  | ["pw"; _; _; _; "nostats"] -> "STATS none"
+  | ["oix"; _; _] -> "NOMODEL"
   | ["pw"; ty; maxdef; batches] ->
       let w = List.fold_left (fun w bt ->
           match String.split_on_char '/' bt with
